@@ -495,7 +495,7 @@ def work_model(E, ctx, states, shard):
                     goc = Outcome("ok", value=_renorm_apps(I, oc.value)) if oc.kind == "ok" and isinstance(oc.value, Num) else oc
                     check_value(ctx, "C03.R-acc", f["spreading_pressure_at"], call, key, goc, exp, None, None, I,
                                 allow_refuse=(preq[0] == "absolute" and preq[1] is None))
-            if True:
+            if not getattr(E, "only_spreading", False):
                 rl = target_l(t, s, lreq, mreq)
                 for which in ("loading_at", "pressure_at"):
                     kw = {"pressure_mode": preq[0], "pressure_unit": preq[1], "loading_basis": lreq[0],
@@ -743,18 +743,50 @@ def r_order(ctx, model, prop="C03"):
 
 
 def _worker(args):
-    root, tier, kind, shard = args
+    root, tier, kind, shard = args[:4]
+    opts = args[4] if len(args) > 4 else {}
     ctx = Ctx("C03", tier=tier, root=root)
     E = Engine(root, tier == "thorough")
     states = all_states(E.t, tier == "thorough")
     if tier != "thorough":
         pres, load_, mat, tus = states
         states = (pres, load_, one_per_basis(mat) + [m for m in mat if m not in one_per_basis(mat)][:1], tus)
+    E.only_spreading = bool(opts.get("only_spreading"))
+    if opts.get("stored_nonfractional"):
+        pres, load_, mat, tus = states
+        states = (pres, [l for l in load_ if l[0] not in ("fraction", "percent")], mat, tus)
     fn = {"point_read": work_point_read, "point_at": work_point_at, "model": work_model}[kind]
     n = fn(E, ctx, states, shard)
     return (n, ctx.obligations, ctx.discharged, [(f.rule, f.where, f.key, f.message, f.detail) for f in ctx.findings],
             list(ctx._nontrivial), ctx.samples[:2])
 
+
+
+def accessors_for(ctx, prop, label, kinds, methods=None, opts=None, tier="quick", floor=1):
+    """the accessor interpretation of this module run on behalf of another property (the clause "evaluating through an isotherm
+    gives the bare values after unit conversion" is part of C10 / C11 / C15 too): findings are re-labelled <prop>.<label>,
+    optionally restricted to the accessors named in `methods` (prefix of the semantic key)"""
+    jobs = max(1, ctx.jobs)
+    k = min(jobs, 4)
+    tasks = [(str(ctx.root), tier, kind, (i, k), opts or {}) for kind in kinds for i in range(k)]
+    if jobs > 1:
+        with multiprocessing.Pool(min(jobs, len(tasks))) as pool:
+            results = list(pool.imap_unordered(_worker, tasks))
+    else:
+        results = [_worker(t) for t in tasks]
+    n = 0
+    for kk, ob, di, fs, nt, sm in results:
+        n += kk
+        keep = [f for f in fs if methods is None or any(f[2].startswith(m + "|") for m in methods)]
+        failed = (ob - di) if keep else 0       # failed instances of accessors outside `methods` belong to another property's check
+        ctx.obligations += di + failed
+        ctx.evaluations += di + failed
+        ctx.discharged += di
+        for (rule, where, key, message, detail) in keep:
+            ctx.add(Finding(f"{prop}.{label}", where, key, message, detail))
+        ctx._nontrivial.update(("acc",) + tuple(x) if isinstance(x, tuple) else ("acc", x) for x in nt)
+    ctx.floor(f"abstract accessor evaluations ({'/'.join(kinds)})", n, floor)
+    return n
 
 
 def r_scale(ctx, model):
